@@ -26,7 +26,7 @@ import os
 import vlib
 from vlib import zlit, bytes_lit, coq_list, coq_opt
 
-IMPORTS = ['SV.C16.TailF', 'SV.C16.Chunked']
+IMPORTS = ['SV.C16.TailF', 'SV.C16.Chunked', 'SV.C16.Channel']
 LEVEL = 'proof'
 
 
@@ -309,6 +309,102 @@ def run_part(chk, workdir):
             chk.violation({'kind': 'PROPERTY VIOLATED: the chunked producer chain emitted a stream that is not the well-formed '
                            'terminated coding of its input', 'chunks': [list(c) for c in chunks], 'sent': list(sent)})
 
+    # ---- 3c. the real channel with a socket that accepts a scripted number of bytes
+    #          per send(), interleaved with log appends (initiate_send / refill_buffer)
+    chan_cases, chan_meta = [], []
+    cbed = H.ChannelBed(os.path.join(wd, 'chan'), S17)
+    try:
+        ALL = 1 << 30
+        scheds = [
+            # ordinary use: small appends, whole sends
+            (b'abc', [('pass', ALL)] + [x for i in range(4) for x in (('fs', [('append', rbytes(rng, 20))]), ('pass', ALL))]),
+            # a burst larger than the output buffer, then more output while its tail still waits
+            (rbytes(rng, 300), [('pass', ALL), ('fs', [('append', rbytes(rng, 4500))]), ('pass', ALL),
+                                ('fs', [('append', rbytes(rng, 60))]), ('pass', ALL), ('fs', [('append', b'last')]), ('pass', ALL)]),
+            # slow peer: partial sends while output keeps arriving
+            (b'init', [('pass', 7)] + [x for i in range(5) for x in (('fs', [('append', rbytes(rng, 30))]), ('pass', 11))]),
+            (b'', [('pass', 0), ('pass', 1), ('fs', [('append', b'a')]), ('pass', 1), ('fs', [('append', b'bc')]), ('pass', 1),
+                   ('pass', 0), ('fs', [('append', b'def')]), ('pass', 2)]),
+            (b'xyz', [('pass', 60), ('fs', [('append', b'0123456789')]), ('pass', 3), ('fs', [('append', b'MORE')]), ('pass', 2),
+                      ('pass', 0), ('wait', 5), ('pass', 5)]),
+        ]
+        for k in range(40 if quick else 600):
+            hostile = rng.random() < 0.25
+            sched = [('pass', rng.choice([0, 1, 5, 50, 200, ALL]))]
+            for _ in range(rng.randrange(2, 14)):
+                r = rng.random()
+                if r < 0.4:
+                    if hostile and rng.random() < 0.4:
+                        sched.append(('fs', gen_ops(rng, True)))
+                    else:
+                        sched.append(('fs', [('append', rbytes(rng, rng.choice([1, 2, 5, 17, 40, 40, 120])))]))
+                elif r < 0.9:
+                    sched.append(('pass', rng.choice([0, 1, 1, 2, 3, 7, 16, 50, 300, ALL, ALL])))
+                else:
+                    sched.append(('wait', rng.choice([1, 4, ALL])))
+            scheds.append((rbytes(rng, rng.choice([0, 1, 5, 40, 1100])), sched))
+        for idx, (initial, sched) in enumerate(scheds):
+            url, logpath = (('/logtail/g:p', cbed.plog) if idx % 2 == 0 else ('/mainlogtail', cbed.mainlog))
+            try:
+                r = cbed.run(url, logpath, initial, sched)
+            except OSError:
+                count('channel:skipped')
+                continue
+            count('channel:' + url.split('/')[1])
+            for op in r['ops']:
+                count('channel-op:' + ('fs' if op[0] == 'fs' else
+                                       ('send-all' if op[1] >= ALL else 'send-0' if op[1] == 0 else 'send-partial')))
+            replay_sched = {'url': url, 'initial': list(initial), 'schedule': _j(sched),
+                            'executed': [[o[0], (o[1] if o[0] == 'pass' else _j(o[2]))] for o in r['ops']],
+                            'ac_out_buffer_size': r['obs']}
+            wire = r['wire']
+            hi = wire.find(b'\r\n\r\n')
+            kinds = [fop[0] for op in sched if op[0] == 'fs' for fop in op[1]]
+            problems = []
+            if r['error']:
+                problems.append('channel error: ' + r['error'])
+            if not r['still_open']:
+                problems.append('the response did not stay open')
+            if hi < 0 or not wire.startswith(b'HTTP/1.1 200') or b'Transfer-Encoding: chunked' not in wire[:hi]:
+                problems.append('no complete chunked 200 response head on the wire')
+                header, body = wire, b''
+            else:
+                header, body = wire[:hi + 4], wire[hi + 4:]
+                data, err = H.strict_dechunk(body)
+                if err:
+                    problems.append('the bytes the socket accepted are not a well-formed chunked stream: ' + err)
+                if all(kk == 'append' for kk in kinds):
+                    appended = b''.join(fop[1] for op in sched if op[0] == 'fs' for fop in op[1])
+                    expect = initial[max(0, len(initial) - 1024):] + appended
+                    if data != expect:
+                        problems.append('log bytes lost or altered: expected %d bytes (initial tail + appended), decoded %d; '
+                                        'first difference at %d' % (len(expect), len(data), _first_diff(expect, data)))
+                if not err:
+                    fed, dead, lis = H.client_decode(_segment(rng, wire))
+                    if dead or b''.join(fed) != data:
+                        problems.append('the bundled client reassembles the accepted bytes differently')
+            if problems:
+                replay_sched.update({'kind': 'PROPERTY VIOLATED: /logtail stream through the real channel with partial sends',
+                                     'what': problems, 'wire': list(wire[:6000]), 'left_in_buffer': list(r['left'][:500])})
+                chk.violation(replay_sched)
+            st0 = r['state0']
+            if len(wire) + sum(len(c) for o in r['ops'] if o[0] == 'fs' for c in o[1][1].values()) < 40000 and hi >= 0:
+                opsl = []
+                for o in r['ops']:
+                    if o[0] == 'fs':
+                        pid, tbl = o[1]
+                        opsl.append('(LFs %s %s)' % (coq_opt(None if pid is None else zlit(pid)), table_term(tbl)))
+                    else:
+                        opsl.append('(LPass %s)' % zlit(o[1]))
+                chan_cases.append('(%s, %s, %s, %s, %s, %s, %s, %s)' % (
+                    zlit(st0[0]), table_term(st0[1]), zlit(1024), zlit(r['obs']), bytes_lit(header), coq_list(opsl),
+                    bytes_lit(wire), bytes_lit(r['left'])))
+                chan_meta.append(replay_sched)
+                distinct.add(('chan', tuple(('f' if o[0] == 'fs' else ('0' if o[1] == 0 else 'a' if o[1] >= ALL else 'p'))
+                                            for o in r['ops'][:12])))
+    finally:
+        cbed.close()
+
     # ---- 4. hex
     hex_cases = ['(%s, %s)' % (zlit(n), bytes_lit(b'%x' % n)) for n in
                  list(range(0, 40)) + [255, 256, 4095, 4096, 65535, 65536, 1 << 20, (1 << 31) - 1, 1 << 40]
@@ -320,6 +416,7 @@ def run_part(chk, workdir):
         ('stream', 'stream_case', 'check_stream_case', stream_cases, stream_meta),
         ('decode', 'dec_case', 'check_dec_case', dec_cases, dec_meta),
         ('encode', 'list bytes * bytes', 'check_encode', enc_cases, enc_meta),
+        ('channel', 'chan_case', 'check_chan_case', chan_cases, chan_meta),
         ('hex', 'hexline_case', 'check_hexline', hex_cases, hex_cases),
     ]:
         bad, errs = vlib.coq_compare(IMPORTS, ctype, fn, cases, wd, tag='c16b_' + name, shard=60)
@@ -372,6 +469,13 @@ def run_part(chk, workdir):
         cov['evaluations'] += total
         cov['distinct_nontrivial'] += len(distinct)
         cov['traces_validated_against_impl'] = cov.get('traces_validated_against_impl', 0) + total
+
+
+def _first_diff(a, b):
+    for i, (x, y) in enumerate(zip(a, b)):
+        if x != y:
+            return i
+    return min(len(a), len(b))
 
 
 def _mk(path):
